@@ -66,6 +66,17 @@ NOT_DECIDED += (' ROUND 6 — not decided: that the lookup made for an element i
                 'subject parameter, and the file legitimately tests another such local (__mro__) inexactly.')
 MUTANTS_ROUND6 = 'mutants/C31/i3-*: breaking ones reported except three declined (see their meta.json), behaviour-preserving rewrites all silent; /tmp/strengthen6/I3/REPORT.md'
 
+# ---- eighth round (sa/rules/s8C31.py) --------------------------------------------------------------------------------------------------------------
+TECHNIQUE += ('; (round 8) value sets of the match-self tri-state (entry value, current value) and the three-valued state of the __match_args__ lookup result along every path of every '
+              '#if variant of the class-pattern helper (out-parameters made visible as writes, contradictory paths dropped)')
+DECIDES += (' ROUND 8 — C31-ARGSFIRST: in every helper of MatchCase.c that pairs a tri-state match-self parameter with a `__match_args__` lookup: the type flag (tp_flags / '
+            'PyType_HasFeature / PyType_IsSubtype) is consulted only after the lookup was made and came back absent; the lookup is skipped only on paths on which the parameter is 1 on entry '
+            '(the compiler proved match-self); when the attribute was found the tri-state is 0 where it is used as the decision; the lookup and the flag test address the same object.')
+NOT_DECIDED += (' ROUND 8 — not decided: that the compile-time answer 1 of ClassPatternNode._calculate_match_self is given only for classes that cannot carry __match_args__ '
+                '(it is given for every known subtype of bool / float / int, C31-TPFLAGS compares the exact builtins only); consulting the flag for entry value 0 (changes the count in a '
+                'TypeError message only).')
+MUTANTS_ROUND8 = 'mutants/C31/k5_*: 6 breaking (all reported by C31-ARGSFIRST) + 3 behaviour-preserving (silent); /tmp/strengthen8/K5/REPORT.md'
+
 # Single-edit variants tried on a scratch copy: (file, edit, rule/construct that reported it); all 25 were reported with exit 1.
 MUTATIONS = [
     ('Cython/Compiler/MatchCaseNodes.py', 'MatchValuePatternNode: rename get_main_pattern_targets (override lost)', 'C31-L7 MatchValuePatternNode.get_main_pattern_targets'),
@@ -105,7 +116,7 @@ SILENT_EDITS = [   # behaviour-preserving, all exit 0
 
 
 def run(ctx):
-    from ..rules import parlists, sC31, s4C31, dD2
+    from ..rules import parlists, sC31, s4C31, dD2, s8C31
     sym = sC31.Sym(ctx)
     # s4C31.rule_suborder(ctx, sym): armed after the repair 1166a8980 (keyword sub-patterns of a class pattern were matched before the positional ones on the unmodified tree)
     # dD2.rule_tempdef / rule_selfkw / rule_dupguard: armed after the repairs 3a6140f2e, 557d1232b, c9e7a10b7 (or-pattern temp inside a sequence, int(x, real=r), duplicate-key check order)
@@ -117,4 +128,4 @@ def run(ctx):
             sC31.rule_tpflags(ctx, sym), sC31.rule_pair(ctx, sym), sC31.rule_altnum(ctx, sym), sC31.rule_seq(ctx, sym), sC31.rule_valop(ctx, sym),
             sC31.rule_refactor(ctx, sym), sC31.rule_exit(ctx, sym), sC31.rule_none(ctx, sym), sC31.rule_dictonly(ctx, sym), sC31.rule_slice(ctx), sC31.rule_once(ctx, sym), sC31.rule_setuse(ctx), sC31.rule_cfg(ctx), sC31.rule_tristate(ctx), sC31.rule_parse(ctx),
             s4C31.rule_probe(ctx, sym), s4C31.rule_exact(ctx), s4C31.rule_suborder(ctx, sym),
-            dD2.rule_tempdef(ctx, sym), dD2.rule_selfkw(ctx, sym), dD2.rule_dupguard(ctx, sym)]
+            dD2.rule_tempdef(ctx, sym), dD2.rule_selfkw(ctx, sym), dD2.rule_dupguard(ctx, sym), s8C31.rule_argsfirst(ctx)]
